@@ -883,6 +883,25 @@ def check_normalization(case, domain, pts, P, out, stats):
     m = float(o.abs().max())
     if m > 1 + 1e-4:
         out.append(viol("C18", "normalization", "outside-[-1,1]", "", worst=m))
+        return
+    if len(sp_names) >= 2:
+        # "per axis in space order": the same points handed over with their variables in another order must be mapped
+        # to the same values, variable by variable
+        try:
+            rev = list(reversed(sp_names))
+            pr = pts[:, rev]
+            o2 = layer(B.Points(pr.as_tensor.clone(), pr.space))
+            o1 = layer(B.Points(pts[:, sp_names].as_tensor.clone(), pts[:, sp_names].space))
+            stats["normalization_permuted"] = stats.get("normalization_permuted", 0) + 1
+            for v in sp_names:
+                a1, a2 = o1[:, [v]].as_tensor, o2[:, [v]].as_tensor
+                if a1.shape != a2.shape or not torch.allclose(a1, a2, rtol=1e-5, atol=1e-6):
+                    out.append(viol("C18", "normalization", "result-depends-on-the-order-of-the-variables", "", var=v,
+                                    max_abs=None if a1.shape != a2.shape else float((a1 - a2).abs().max())))
+                    break
+        except Exception as ex:
+            out.append(viol("C18", "normalization", "raises:" + type(ex).__name__, innermost_site(ex.__traceback__) + ":permuted",
+                            msg=str(ex)[:160]))
 
 
 def _low_acceptance(case):
